@@ -511,7 +511,10 @@ Fixpoint matrix (fuel : nat) (e : expr) : out expr :=
   | EGroup BOr l =>
       do scratch <- mapM (fun x => matrix fuel x) l;
       let fields := count_fields scratch in
-      if existsb (fun kv => (1 <? snd kv)%nat && (snd kv <? 256)%nat) fields then
+      (* fix D21: no table when the columns could not all get a key (char::from_u32 stops at the
+         surrogate range) *)
+      if existsb (fun kv => (1 <? snd kv)%nat && (snd kv <? 256)%nat) fields
+         && (N.of_nat (length fields) <=? 55296)%N then
         let ordered :=
           flat_map (fun k => match lookup k fields with Some n => [(k, n)] | None => [] end)
                    (ord (map fst fields)) in
